@@ -211,6 +211,13 @@ def gen_plumb(ctx):
         else:
             met["ustar"] = [0.3 + 0.05 * i for i in range(nsteps)] if nsteps > 1 and k % 2 else 0.35
         rlat, rlon = rng.uniform(-60, 60), rng.uniform(-180, 180)
+        # a reference on the equator / the prime meridian / at (0, 0) is an origin like any other (0.0 is a coordinate)
+        if k % 8 == 1:
+            rlat = 0.0
+        elif k % 8 == 3:
+            rlon = 0.0
+        elif k % 8 == 5:
+            rlat, rlon = 0.0, 0.0
         ntw = rng.choice([1, 2, 3])
         towers = [{"name": "T%d" % t, "lat": rlat + rng.uniform(-0.003, 0.003), "lon": rlon + rng.uniform(-0.003, 0.003),
                    "z_m": rng.choice([2.0, 3.5, 10.0])} for t in range(ntw)]
